@@ -148,6 +148,51 @@ def _chunk(item):
     return name, bad, len(chunk)
 
 
+def corpus(tier):
+    from checks import c08, c10, c12, c17, c09
+    out = []
+    for name, src, exp in c08.hierarchy_programs(tier) + c08.overload_programs(tier) + c08.generic_programs() + c08.destructor_programs():
+        if exp[0] == "ok":
+            out.append(("c08:" + name, src))
+    for prep in ("h", "x"):
+        for p in c17.programs(prep):
+            out.append(("c17:%s:%s" % (prep, p.name), p.src))
+    for sub in c10.subsets(3):
+        out.append(("c10:" + "+".join(sub), c10.program(list(sub) + ["main"], sub)))
+    for name, src in c12.edge_programs(tier):
+        if name.startswith(("chain", "many-qubits", "deep-recursion")):
+            continue
+        if tier == "thorough" or name.startswith(("dtor-edge", "generic-hierarchy", "hierarchy", "error-at", "error-in", "pressure", "null")):
+            out.append(("c12:" + name, src))
+    for ib in range(len(c09.D_BODIES)):
+        for idth in range(len(c09.D_DEATHS)):
+            out.append(("c09:D:%d:%d" % (ib, idth), c09.render_d(c09.D_UNIQUE, c09.D_BODIES[ib], c09.D_DEATHS[idth])))
+    return out
+
+
+def _corpus_one(item):
+    name, src = item
+    probe = vdrv.run_src(src, gc="none", warn=0, want="tracked")
+    if probe.crash or probe.rec is None or probe.rec.get("stage") != "run":
+        return name, src, None, 1                      # not accepted, or a crash (C12's subject)
+    last = probe.rec["polls"] - 1
+    base = vdrv.run_src(src, gc="mask:%d" % last, warn=0, want="tracked")
+    if base.crash or base.rec is None:
+        return name, src, None, 2
+    ref = observe(base.rec)
+    n = 2
+    for label, spec in (("every boundary", "all"), ("every second boundary", "mask:" + ",".join(map(str, list(range(0, last, 2)) + [last]))), ("the program's own triggers", "own")):
+        r = vdrv.run_src(src, gc=spec, warn=0, want="tracked")
+        n += 1
+        if r.crash == "timeout":
+            continue
+        if r.crash:
+            return name, src, "interpreter died with collections at %s: %s %s" % (label, r.crash, r["fd2"][:400]), n
+        if observe(r.rec) != ref:
+            return name, src, "behaviour differs: with no collection before the end of the run %r, with collections at %s %r" % (ref, label, observe(r.rec)), n
+    return name, src, "", n
+
+
 def main(tier):
     global _K0, _D
     ck = vcheck.Check("C11", "model_checking", tier)
@@ -198,6 +243,19 @@ def main(tier):
                 if nbad[name] <= 2:
                     ck.violation("gc:%s:%s" % (name, p.split(":")[0][:40]), "%s\nprogram (%s):\n%s" % (p, name, program(name)),
                                  {"tool": "vdrv", "job": {"kind": "run", "opts": {"gc": "mask:" + ",".join(map(str, sch)), "warn": 0, "want": "tracked"}, "blobs": {"src": program(name)}}})
+    # corpus pass: every accepted program of the other checks' generators, run with the collector forced at EVERY statement boundary and
+    # at every second one, against the run with only the end-of-run collection (three points of the schedule space per program, over
+    # thousands of programs nobody wrote with the collector in mind)
+    ncorp = 0
+    if not ck.out_of_time():
+        for name, src, prob, n in vdrv.pmap(_corpus_one, corpus(tier), chunksize=8):
+            total += n
+            if prob is None:
+                continue
+            ncorp += 1
+            if prob:
+                fam = ":".join(name.split(":")[:2])
+                ck.violation("corpus:%s:%s" % (fam, prob.split(":")[0][:40]), "%s\nprogram (%s):\n%s" % (prob, name, src), {"tool": "vdrv", "job": {"kind": "run", "opts": {"gc": "all", "warn": 0, "want": "tracked"}, "blobs": {"src": src}}})
     # thread passes
     thr = {}
     try:
@@ -208,6 +266,6 @@ def main(tier):
     ck.assumptions += ["collections are forced through the BLOCH_VERIF_HOOKS schedule at the interpreter's own poll points (statement starts and the end of execute)",
                        "heap-object counts and destructors of cyclic garbage (documented: not run) are not compared"]
     cov = {"states": len(states), "transitions": total, "traces_validated_against_impl": total, "programs": len(names), "programs_with_all_subsets": exhaustive_programs, "statement_boundaries": Ks, "bound_per_program": bounds,
-           "K0": _K0, "deviation_bound_beyond_K0": _D}
+           "K0": _K0, "deviation_bound_beyond_K0": _D, "corpus_programs": ncorp}
     cov.update(thr)
     ck.finish(cov, exhaustive=True)
